@@ -136,6 +136,11 @@ func runC01(c *Ctx, r *Rec) {
 	}
 	r.floor("D3-loop-progress", 1)
 
+	// ---- D6 rebuild steps
+	if lstNorm != nil {
+		checkRebuildSteps(c, r, info, lst, c.funcOf(lstNorm))
+	}
+
 	// ---- D4 commit-last
 	checkCommitLast(c, r, info, lst)
 	r.floor("D4-commit-last", 7)
